@@ -71,7 +71,9 @@ int CVodeInit(void *, CVRhsFn, realtype t0, N_Vector y0) {
     zn.assign(y0->data, y0->data + y0->len);
     return 0;
 }
-int CVodeSStolerances(void *, realtype, realtype) { return 0; }
+// as CVODE: negative tolerances are illegal input (CV_ILL_INPUT = -22), and an integrator whose tolerances were never set refuses to run
+static bool tol_ill = false;
+int CVodeSStolerances(void *, realtype rtol, realtype atol) { tol_ill = (rtol < 0.0 || atol < 0.0); return tol_ill ? -22 : 0; }
 int CVodeSetLinearSolver(void *, SUNLinearSolver, SUNMatrix) { return 0; }
 int CVodeSetJacFn(void *, CVLsJacFn) { return 0; }
 int CVodeSetUserData(void *, void *) { return 0; }
@@ -87,6 +89,7 @@ int CVodeGetNumGEvals(void *, long *x) { *x = 0; return 0; }
 
 int CVode(void *, realtype tout, N_Vector y, realtype *t, int) {
     ncalls++;
+    if (tol_ill) { *t = tcur; return -22; }
     Ev e = ci < cev.size() ? cev[ci] : Ev{0, 1.0};
     ci++;
     double delta = (e.flag >= 0 ? 1.0 : e.rho) * (tout - tcur);
@@ -137,7 +140,8 @@ int main(int argc, char **argv) {
     Naunet n;
     // argv[4] (cuSPARSE variant only): the number of systems of the batch; every system starts at y0
     const int nsys = argc > 4 ? atoi(argv[4]) : 1;
-    if (n.Init(nsys, 1e-20, 1e-5, 500) != NAUNET_SUCCESS) { printf("init-failed\n"); return 2; }
+    const double rtol = getenv("MOCK_RTOL") ? atof(getenv("MOCK_RTOL")) : 1e-5;      // a negative value: illegal input to the integrator
+    if (n.Init(nsys, 1e-20, rtol, 500) != NAUNET_SUCCESS) { printf("init-failed\n"); return 2; }
     // every system and equation of a batch starts at its own value (y0 + system + equation / 1024)
     auto fill = [&](std::vector<realtype> &v, int ns) {
         v.assign((size_t)NEQUATIONS * ns, y0);
